@@ -1,6 +1,7 @@
 """C01 C04 C05 C06 C09 C20: spec/Stage.tla bound to stage.Stage (harness level L1)."""
 import concurrent.futures as cf
 import json
+import random
 import os
 import subprocess
 
@@ -33,8 +34,8 @@ PROPS = {
     "C05": dict(design=["P_C05_Once", "P_C05_LogOnce"],
                 obs=["Obs_C05_Once", "Obs_C05_LogOnce", "Obs_C05_QueryNoEffect", "Obs_C05_DupAnswered"],
                 universes=["U1", "U3"], dcfg=[("U1", "plain"), ("U1", "crash"), ("U1", "clean")]),
-    "C06": dict(design=["P_C06_NoStrand", "P_C06_NoLoss", "P_C01_Final", "P_C05_Once"],
-                obs=["Obs_C06_NoStrand", "Obs_C06_NoLoss", "Obs_C06_Trichotomy", "Obs_C01_Final", "Obs_C05_Once"],
+    "C06": dict(design=["P_C06_NoStrand", "P_C06_NoLoss", "P_C06_LoggedDelivered", "P_C01_Final", "P_C05_Once"],
+                obs=["Obs_C06_NoStrand", "Obs_C06_NoLoss", "Obs_C06_LoggedDelivered", "Obs_C06_Trichotomy", "Obs_C01_Final", "Obs_C05_Once"],
                 universes=["U1", "U3"], dcfg=[("U1", "crash")], crashall=True),
     "C09": dict(design=["P_C09_Sound", "P_C09_Complete"],
                 obs=["Obs_C09_Sound", "Obs_C09_Complete", "Obs_C09_Scan", "Obs_C09_Received"],
@@ -85,6 +86,9 @@ def base_consts(u, budgets, hostile, extra=None):
     return c
 
 
+QUICK_CAP = 3000
+
+
 def gen_scenarios(ctx, u, path):
     """TLC-generated command sequences for universe u, deduplicated, as harness scenarios."""
     big = dict(MaxThr=1, MaxReq=8, MaxCrash=2, MaxCorrupt=2, MaxClean=3, MaxExpire=1, MaxOverwrite=1, MaxQuery=4)
@@ -109,7 +113,7 @@ def gen_scenarios(ctx, u, path):
 
     # exhaustive short sequences
     small = dict(big, MaxReq=3, MaxCrash=1, MaxClean=1, MaxQuery=1)
-    hostile = ctx.prop == "C01"     # integrity must hold for any request sequence
+    hostile = ctx.prop in ("C01", "C20")     # must hold for any request sequence
     c = base_consts(u, small, hostile, {"MaxCmds": 1 if ctx.tier == "quick" else 3, "GenCrash": "TRUE", "Emit": "TRUE"})
     r = tlc(ctx, "MCStage", cfg("GenSpec", c, constraint="EmitScenario"), timeout=900, heap="8g", sink=sink)
     if not r.ok:
@@ -122,6 +126,21 @@ def gen_scenarios(ctx, u, path):
             workers=8, simulate="num=%d" % num, extra=["-depth", "70", "-seed", str(ctx.seed)])
     out.close()
     ctx.notes.setdefault("generated", {})[u] = {"short_exhaustive": nshort, "random_walks": n - nshort}
+    cap = QUICK_CAP if ctx.tier == "quick" else None
+    if cap and n > cap:
+        # the quick tier executes all short sequences and a seeded sample of the walk prefixes
+        lines = open(path).read().splitlines()
+        short, walks = lines[:nshort], lines[nshort:]
+        rnd = random.Random(ctx.seed * 7919 + len(u))
+        keep = set(rnd.sample(range(len(walks)), max(0, cap - len(short))))
+        with open(path, "w") as f:
+            for l in short:
+                f.write(l + "\n")
+            for i, l in enumerate(walks):
+                if i in keep:
+                    f.write(l + "\n")
+        ctx.notes["generated"][u]["executed"] = len(short) + len(keep)
+        n = len(short) + len(keep)
     return n
 
 
